@@ -219,6 +219,8 @@ func c17Child(c *mon.Child) {
 		{"slice-of-named", func(k numKind) reflect.Type { return reflect.SliceOf(k.named) }, `( @Tok )+`, "slice", false},
 		{"slice-single-capture", func(k numKind) reflect.Type { return reflect.SliceOf(k.typ) }, `@( Tok+ )`, "slice", false},
 		{"slice-single-capture-of-named", func(k numKind) reflect.Type { return reflect.SliceOf(k.named) }, `@( Tok Tok? Tok? )`, "slice", false},
+		{"two-captures-one-scalar", func(k numKind) reflect.Type { return k.typ }, `@Tok @Tok`, "two", false},
+		{"two-captures-one-named-pointer", func(k numKind) reflect.Type { return reflect.PtrTo(k.named) }, `@Tok @Tok`, "two", false},
 		{"joined", func(k numKind) reflect.Type { return k.typ }, `@( Minus? Tok )`, "joined", false},
 		{"joined-named-pointer", func(k numKind) reflect.Type { return reflect.PtrTo(k.named) }, `@( Minus Minus? Tok | Tok )`, "joined", false},
 		{"scalar-elide-option", func(k numKind) reflect.Type { return k.typ }, `@Tok`, "scalar", true},
@@ -281,8 +283,12 @@ func c17Child(c *mon.Child) {
 						continue
 					}
 					captured = []string{text}
-				case "slice":
+				case "slice", "two":
 					n := 1 + ti%3
+					if v.mode == "two" {
+						// two separate captures of one scalar: each text is converted on its own, the later value stays
+						n = 2
+					}
 					captured = nil
 					var parts []string
 					for j := 0; j < n; j++ {
@@ -301,7 +307,7 @@ func c17Child(c *mon.Child) {
 				}
 				if strings.HasPrefix(input, "-") && v.mode != "joined" {
 					// "-5" lexes as Minus Tok; only the joined templates accept that
-					if v.mode == "scalar" || v.mode == "alt" || v.mode == "slice" {
+					if v.mode == "scalar" || v.mode == "alt" || v.mode == "slice" || v.mode == "two" {
 						continue
 					}
 				}
@@ -377,6 +383,10 @@ func c17Child(c *mon.Child) {
 									}
 								}
 							}
+						} else if v.mode == "two" {
+							if ok, got := numEqual(k, fv, exps[1]); !ok {
+								report("", fmt.Sprintf("stored %s after two captures %q of the same field; the second capture's value is %v", got, captured, fmtExp(k, exps[1])))
+							}
 						} else if ok, got := numEqual(k, fv, exps[0]); !ok {
 							report("", fmt.Sprintf("stored %s, strconv.Parse%s(%q, %d) says %v", got, strings.Title(k.class), captured[0], k.bits, fmtExp(k, exps[0])))
 						}
@@ -397,7 +407,7 @@ func c17Child(c *mon.Child) {
 							}
 							// located at the first captured token
 							wantOff := len(lead)
-							if v.mode == "slice" && !strings.HasPrefix(v.name, "slice-single-capture") {
+							if (v.mode == "slice" || v.mode == "two") && !strings.HasPrefix(v.name, "slice-single-capture") {
 								// one capture per element; a single capture of several tokens is located at its first token
 								wantOff = len(lead)
 								for i := 0; i < firstBad; i++ {
